@@ -165,10 +165,10 @@ impl ConstantValue {
                 }
                 path.into()
             }
-            ConstantValue::WorkingDir => std::env::current_dir()
-                .unwrap_or_default()
-                .display()
-                .to_string()
+            // Only the backend knows whether there is a working directory to tell
+            ConstantValue::WorkingDir => backend
+                .get_current_directory()
+                .unwrap_or_else(|_| ".".into())
                 .into(),
         })
     }
